@@ -119,3 +119,68 @@ crate::harnesses! {
         }
     }
 }
+
+/// C02 / C08 on the shorter-interval case: every power of two (mantissa field zero) is written to a decimal string that the
+/// real parser reads back to the identical bits.
+pub fn roundtrip_f32(bits: u32) -> Result<(), &'static str> {
+    use lexical_parse_float::FromLexical;
+    use lexical_write_float::ToLexical;
+    let v = f32::from_bits(bits);
+    let mut buf = [0u8; 64];
+    let s = v.to_lexical(&mut buf);
+    match f32::from_lexical(s) {
+        Ok(r) => if r.to_bits() == bits { Ok(()) } else { Err("the written decimal string parses back to the identical bits") },
+        Err(_) => Err("the written decimal string is accepted by the parser"),
+    }
+}
+pub fn roundtrip_f64(bits: u64) -> Result<(), &'static str> {
+    use lexical_parse_float::FromLexical;
+    use lexical_write_float::ToLexical;
+    let v = f64::from_bits(bits);
+    let mut buf = [0u8; 64];
+    let s = v.to_lexical(&mut buf);
+    match f64::from_lexical(s) {
+        Ok(r) => if r.to_bits() == bits { Ok(()) } else { Err("the written decimal string parses back to the identical bits") },
+        Err(_) => Err("the written decimal string is accepted by the parser"),
+    }
+}
+
+pub mod rt {
+    use super::*;
+    crate::harnesses! {
+        /// every normal f32 power of two (the shorter-interval case of Dragonbox), both signs: write -> parse round trip.
+        /// @prop C02 C08
+        /// @feat default radix_format
+        /// @bound f32 powers of two (mantissa field zero), all 254 normal exponents, both signs
+        /// @fn lexical-write-float::algorithm::compute_nearest_shorter[f32]
+        /// @fn lexical-write-float::algorithm::to_decimal
+        /// @timeout 1800
+        #[cfg_attr(kani, kani::unwind(24))]
+        fn roundtrip_pow2_f32() {
+            let e: u32 = any();
+            let neg: bool = any();
+            assume(e >= 1 && e <= 254);
+            let bits = ((neg as u32) << 31) | (e << 23);
+            let r = roundtrip_f32(bits);
+            vcheck!(r.is_ok(), "f32 power of two: write -> parse returns the identical bits");
+        }
+
+        /// every normal f64 power of two, both signs: write -> parse round trip.
+        /// @prop C02 C08
+        /// @tier thorough
+        /// @mem 10
+        /// @feat default radix_format
+        /// @bound f64 powers of two (mantissa field zero), all 2046 normal exponents, both signs
+        /// @fn lexical-write-float::algorithm::compute_nearest_shorter[f64]
+        /// @timeout 5400
+        #[cfg_attr(kani, kani::unwind(30))]
+        fn roundtrip_pow2_f64() {
+            let e: u64 = any();
+            let neg: bool = any();
+            assume(e >= 1 && e <= 2046);
+            let bits = ((neg as u64) << 63) | (e << 52);
+            let r = roundtrip_f64(bits);
+            vcheck!(r.is_ok(), "f64 power of two: write -> parse returns the identical bits");
+        }
+    }
+}
